@@ -81,7 +81,8 @@ impl Knobs {
     /// Swarm: draw a configuration.
     pub fn draw(rng: &mut Rng) -> Knobs {
         let block_size = *rng.pick(&[32usize, 64, 128, 256, 1024, 4096, 16 << 10]);
-        let rowset_size = *rng.pick(&[64usize, 256, 1024, 4096, 64 << 10, 1 << 20, 256 << 20]);
+        // 1 = every flushed chunk is its own row-set and compaction never merges anything
+        let rowset_size = *rng.pick(&[1usize, 64, 256, 1024, 4096, 64 << 10, 1 << 20, 256 << 20]);
         Knobs {
             block_size,
             rowset_size,
